@@ -162,6 +162,17 @@ fn from_days_contract_body(k: i32) {
     let _ = Date::from_days(days);
 }
 
+// the same obligation as a plain harness: natively replayable (an attribute contract exists only under cfg(kani), so a
+// falsified proof_for_contract harness cannot be replayed against the compiled code; this twin can)
+//@chunks 16 c20_from_days_replayable from_days_replayable_body #[kani::proof]
+fn from_days_replayable_body(k: i32) {
+    let days: i32 = kani::any();
+    let (lo, hi) = chunk_days(k);
+    kani::assume(days >= lo && days <= hi);
+    let d = Date::from_days(days);
+    assert!(from_days_post(days, &d), "from_days: year/ordinal/flag valid and 365(y-1)+(y-1)/4-(y-1)/100+(y-1)/400+ordinal == days");
+}
+
 // ---- 6. UTCDateTime::from_unix_timestamp: attribute contract, proved modularly on top of the contract of from_days
 //@chunks 16 c20_from_unix_timestamp_contract from_unix_timestamp_contract_body #[kani::proof_for_contract(UTCDateTime::from_unix_timestamp)] #[kani::stub_verified(Date::from_days)]
 fn from_unix_timestamp_contract_body(k: i32) {
